@@ -31,3 +31,9 @@ Fixpoint join (sep : bytes) (l : list bytes) : bytes :=
   | [x] => x
   | x :: r => x ++ sep ++ join sep r
   end.
+
+(* linear-time reverse (List.rev is quadratic, which matters for 64 KiB lines in the extracted model);
+   equal to List.rev by List.rev_alt *)
+Definition frev {A} (l : list A) : list A := rev_append l [].
+Lemma frev_rev {A} (l : list A) : frev l = rev l.
+Proof. unfold frev. symmetry. apply rev_alt. Qed.
